@@ -275,6 +275,10 @@ fn read_data_compressed(result: &mut Buffer, bytes: &[u8]) -> EngineResult<bool>
                 }
             }
             Compression::Char => {
+                if o >= bytes.len() {
+                    log::error!("Invalid XBin. Read compression block beyond EOF.");
+                    break;
+                }
                 let char_code = bytes[o];
                 o += 1;
                 for _ in 0..repeat_counter {
@@ -292,6 +296,10 @@ fn read_data_compressed(result: &mut Buffer, bytes: &[u8]) -> EngineResult<bool>
                 }
             }
             Compression::Attr => {
+                if o >= bytes.len() {
+                    log::error!("Invalid XBin. Read compression block beyond EOF.");
+                    break;
+                }
                 let attribute = bytes[o];
                 o += 1;
                 for _ in 0..repeat_counter {
@@ -308,6 +316,10 @@ fn read_data_compressed(result: &mut Buffer, bytes: &[u8]) -> EngineResult<bool>
                 }
             }
             Compression::Full => {
+                if o >= bytes.len() {
+                    log::error!("Invalid XBin. Read compression block beyond EOF.");
+                    break;
+                }
                 let char_code = bytes[o];
                 o += 1;
                 if o + 1 > bytes.len() {
